@@ -868,7 +868,7 @@ func (g *gen) headers(over []*Header) []*Header {
 		var name string
 		if len(over) > 0 && g.oneIn(2, "override") {
 			name = pick(g, over, "overridden").Name
-			if g.oneIn(3, "casevariant") {
+			if g.oneIn(3, "casevariant") && !g.avoid("header_case_variant_override") {
 				name = strings.ToLower(name)
 			}
 			g.tagf("header_override")
@@ -910,7 +910,7 @@ func (g *gen) buildMethod(f *File, s *Service, m *Method, usedRoutes map[string]
 
 	verb := int32(0)
 	if p.Transport {
-		if p.DefaultPaths && g.oneIn(4, "noconfig") {
+		if p.DefaultPaths && g.oneIn(4, "noconfig") && !g.avoid("default_path_disagreement") {
 			g.tagf("transport:no_config")
 		} else {
 			m.HasConfig = true
@@ -924,7 +924,7 @@ func (g *gen) buildMethod(f *File, s *Service, m *Method, usedRoutes map[string]
 
 	// path variables
 	var pathVars []*Field
-	if m.HasConfig && !(p.DefaultPaths && g.oneIn(4, "nopath")) {
+	if m.HasConfig && !(p.DefaultPaths && g.oneIn(4, "nopath") && !g.avoid("default_path_disagreement")) {
 		nv := g.intn(0, 3, "npathvars")
 		for i := 0; i < nv; i++ {
 			k := pick(g, URLKinds, "pathkind")
